@@ -429,6 +429,13 @@ def gen_sparse(rng, tier, kind):
             c["footer_desc"] = [0, 0]
     else:
         fsize += rng.pick([0, 0, 512, 100])
+        last_g = (capacity - 1) // gs
+        if (not comp and not meta_after and capacity % gs and phys.get(last_g) is not None and place != "high"
+                and all(phys[last_g] >= s + gs for g2, s in phys.items() if g2 != last_g)
+                and phys[last_g] * SECTOR >= c.get("meta_end", 0) * SECTOR and rng.chance(0.6)):
+            # the last guest grain is partial (capacity is not a multiple of the grain size), allocated and physically last,
+            # and only its guest-visible sectors are stored: the file ends less than a grain behind its start
+            fsize = (phys[last_g] + capacity % gs) * SECTOR
     c["fsize"] = fsize
     c["states"] = sorted([g, st, phys.get(g, 0)] for g, st in grains.items())
     c["windows"] = windows
